@@ -233,6 +233,7 @@ Section Machine.
     let cur := perm_of s target in
     can_manage ap &&
     mhas target (accounts s) &&
+    negb (cur =? pNone) &&                                      (* F33 repair: no key is delivered by a permission change *)
     negb (cur =? pGuest) &&
     negb (cur =? pOwner) &&
     negb ((cur =? pAdmin) && negb (ap =? pOwner)) &&
